@@ -122,3 +122,34 @@ Section RA.
     - unfold items_size in Hfd |- *. cbn [fold_right] in Hfd |- *. lia.
   Qed.
 End RA.
+
+(** Non-vacuity at the schema regenerated from /repo: real attributes conform (an indexed
+    "Cryptographic Length" whose name selects an int32, a custom "x-id" attribute held as a
+    generic tree under the value tag, a structured "Name" without index), and their binary
+    encoding decodes back to them. *)
+From KVGen Require Import KmipSchema.
+From KV Require Import KmipCodec.
+Local Open Scope string_scope.
+Local Open Scope Z_scope.
+
+Definition ex_attr_len : value :=
+  VStruct "kmip.Attribute"
+    [VStr [67; 114; 121; 112; 116; 111; 103; 114; 97; 112; 104; 105; 99; 32; 76; 101; 110; 103; 116; 104];
+     VPtr (VInt 3); VIface (TScalar KInt32) (VInt 256)].
+Definition ex_attr_custom : value :=
+  VStruct "kmip.Attribute"
+    [VStr [120; 45; 105; 100]; VPtr (VInt 0);
+     VIface (TNamed "ttlv.Value") (VTree (IStruct 4325387 [IText 4325533 [97; 98]; IInt 4325385 (-7)]))].
+Definition ex_attr_name : value :=
+  VStruct "kmip.Attribute"
+    [VStr [78; 97; 109; 101]; VNil; VIface (TNamed "kmip.Name") (VStruct "kmip.Name" [VStr [107; 49]; VInt 1])].
+
+Definition attr_example_ok (v : value) : Prop :=
+  (exists sc, conf_ty kmip_schema kmip_ops kmip_attrs kmip_objs 40 (Some (1, 4)) (TNamed "kmip.Attribute") 4325384 v = Some sc) /\
+  (do r <- enc_ty kmip_schema 40 (Some (1, 4)) (TNamed "kmip.Attribute") 4325384 v ;;
+   do c <- bin_cursor (wire_enc_list (fst r)) ;;
+   do d <- dec_ty kmip_schema kmip_ops kmip_attrs kmip_objs bin_fmt 100 (Some (1, 4)) (TNamed "kmip.Attribute") 4325384 c ;;
+   Ok (value_eqb (fst (fst d)) v && negb (match fst r with [] => true | _ => false end))) = Ok true.
+
+Example rt_attribute_example : attr_example_ok ex_attr_len /\ attr_example_ok ex_attr_custom /\ attr_example_ok ex_attr_name.
+Proof. repeat split; try (eexists; vm_compute; reflexivity); vm_compute; reflexivity. Qed.
